@@ -252,10 +252,10 @@ C["C06"]["harnesses"] += [
     H("ZZParseInfoLimits", "torrent", "Session.parseInfo (resume data / peer-supplied info) on an arbitrary decoded dictionary (<=2 files, <=3 piece hashes, symbolic lengths), resume version 0..4, piece-count limit 0..3: rejected, or positive piece length, 1..MaxPieces pieces, known version", T(40, 900, flags=["-nospawn"]), T(40, 900, flags=["-nospawn"]), replay="model"),
 ]
 
-RAMD = "downloading 3-piece torrent with the real piece-memory manager (its goroutine runs; budget 1..2 pieces) and two unchoked peers holding every piece, so that requests queue up; events: a peer completes its piece (hash ok or not), a peer disconnects, a peer chokes, the torrent is stopped; the manager's grants are delivered to the torrent after every event: reserved memory == piece length x running downloads, never above the budget, zero once the torrent has stopped"
+RAMD = "downloading 3-piece torrent with the real piece-memory manager (its goroutine runs; budget 1..2 pieces) and two unchoked peers holding every piece, so that requests queue up; events: a peer completes its piece (hash ok or not), a peer disconnects, a peer chokes, the torrent is stopped; the event loop is modelled as always ready to take a grant (so the manager's choice between granting and noticing that the requester went away goes both ways) and grants are handled after every event: reserved memory == piece length x running downloads, never above the budget, zero once the torrent has stopped"
 C["C17"]["harnesses"] += [
-    H("ZZRamBalance2", "torrent", "every sequence of 2 events: " + RAMD, T(40, 1800, 4, 5), T(40, 1800, 4, 5), replay="model"),
-    H("ZZRamBalance", "torrent", "every sequence of 3 events: " + RAMD, None, T(40, 3000, 16, 7), replay="model"),
+    H("ZZRamBalance1", "torrent", "one event: " + RAMD, T(40, 1800, 4, 5), T(40, 1800, 4, 5), replay="model"),
+    H("ZZRamBalance2", "torrent", "every sequence of 2 events: " + RAMD, None, T(40, 3000, 12, 7), replay="model"),
 ]
 C["C03"]["harnesses"] += [SECRW]
 
